@@ -139,7 +139,10 @@ def has_x_free(t, bound=False):
 
 
 class Renderer:
-    def __init__(self, fname="F", only_next=False, selfmode=False):
+    def __init__(self, fname="F", only_next=False, selfmode=False, kwname="k"):
+        # kwname: the name the second argument of a call site is written under ("y" in the twopos wrapper, where it is a
+        # second *positional* parameter given by keyword)
+        self.kw = kwname
         # selfmode: the methods take self.  recurse / call_next stand for the bound method; the function's own
         # (module-level) name is not bound to anything: it is called in full, F(self, x)
         self.selfmode = selfmode
@@ -166,20 +169,20 @@ class Renderer:
             if t.get("kwfirst") and t["kw"]["n"] != "null":
                 k = self.r(t["kw"])       # (rendered in evaluation order: the inner-function counters follow it)
                 a = self.r(t["arg"])
-                return f"{callee}({', '.join(own + [f'k={k}', f'x={a}'])})"
+                return f"{callee}({', '.join(own + [f'{self.kw}={k}', f'x={a}'])})"
             a = self.r(t["arg"])
             if t.get("asvalue") and site != "N":
                 return f"list(map({callee}, [self], [{a}]))[0]" if own else f"list(map({callee}, [{a}]))[0]"
             parts = own + [f"*[{a}]" if t["star"] else (f"x={a}" if t.get("poskw") else a)]
             if t["kw"]["n"] != "null":
                 k = self.r(t["kw"])
-                parts.append(f"**{{'k': {k}}}" if t["dstar"] else f"k={k}")
+                parts.append(f"**{{'{self.kw}': {k}}}" if t["dstar"] else f"{self.kw}={k}")
             return f"{callee}({', '.join(parts)})"
         if n == "CX":
             site = "N" if self.only_next else t["site"]
             callee = {"R": "recurse", "N": "call_next", "S": self.fname}[site]
             own = "self, " if self.selfmode and site == "S" else ""
-            return f"{callee}({own}x, k=(x := {self.r(t['val'])}))"
+            return f"{callee}({own}x, {self.kw}=(x := {self.r(t['val'])}))"
         if n == "Add":
             return f"({self.r(t['a'])} + {self.r(t['b'])})"
         if n == "If":
@@ -241,7 +244,10 @@ def _cls_comp(self, name, body, t):
 Renderer._cls_comp = _cls_comp
 
 
+# twopos: the methods take two positional parameters (x: int, y: int = 0) and the call sites write the second argument as y=..:
+# site(y=<kw>, x=<arg>) gives both positionals by keyword in the other order
 WRAPPERS = ["plain", "self", "closure", "defaults", "generator", "future"]
+EXTRA_WRAPPERS = ["twopos"]
 
 
 def prog_hash(prog):
@@ -254,7 +260,15 @@ def prog_hash(prog):
 def render(prog, wrapper):
     """Returns (source, offset): module-level source defining m_top / m_next
     (or a factory) for the given wrapper."""
-    R = Renderer(only_next=(wrapper == "generator"), selfmode=(wrapper == "self"))
+    R = Renderer(only_next=(wrapper == "generator"), selfmode=(wrapper == "self"), kwname=("y" if wrapper == "twopos" else "k"))
+    if wrapper == "twopos":
+        expr = R.r(prog)
+        L = ["def m_top(x: int, y: int = 0):", "    if DEPTH[0]:", "        LOG.append(f'R{x}k{y}')", "        return x + 10 + 3 * y",
+             "    DEPTH[0] += 1", "    try:"]
+        L += [f"        {p}" for p in R.prelude]
+        L += [f"        return ({expr})", "    finally:", "        DEPTH[0] -= 1",
+              "def m_next(x: int, y: int = 0):", "    LOG.append(f'N{x}k{y}')", "    return x + 100 + 3 * y"]
+        return "\n".join(L) + "\n", 0
     expr = R.r(prog)
     slf = "self, " if wrapper == "self" else ""
     extra_pos = ", d: int = 3" if wrapper == "defaults" else ""
